@@ -246,3 +246,18 @@ impl AccessRig {
     }
   }
 }
+
+// Strengthening round 2 (add-only): the grant lookup of an installed permissions document at
+// an explicit instant (seconds since the Unix epoch) - the real `find_grant` on the really
+// parsed validity windows.
+impl AccessRig {
+  /// Ok(a grant of the subject is valid at that instant) | Err("panic" | "no_handle")
+  pub fn has_grant_at(&self, handle: u32, unix_seconds: i64) -> Result<bool, String> {
+    let ac = &self.ac;
+    match catch_unwind(AssertUnwindSafe(|| ac.verif_has_grant_at(handle, unix_seconds))) {
+      Ok(Some(b)) => Ok(b),
+      Ok(None) => Err("no_handle".to_string()),
+      Err(_) => Err("panic".to_string()),
+    }
+  }
+}
